@@ -133,6 +133,15 @@ def hosts_casts():
         h.n("Cast", ["a"], "b", to=t2)
         h.out("b")
         out.append(h.build())
+    # the only intermediate-cast eliminations cast_cast_rule allows: ... -> FLOAT -> FLOAT16 / BFLOAT16
+    for (t0, n0), (t2, n2) in itertools.product(types[:4] + [(TP.FLOAT16, "h")], [(TP.FLOAT16, "h"), (TP.BFLOAT16, "bf")]):
+        h = H(f"Cast chain {n0}->f->{n2} (then back to f)")
+        h.inp("x", t0, (3,))
+        h.n("Cast", ["x"], "a", to=F)
+        h.n("Cast", ["a"], "b", to=t2)
+        h.n("Cast", ["b"], "c", to=F)
+        h.out("c")
+        out.append(h.build())
     for t, n in types[:4]:
         h = H(f"no-op Cast {n}->{n}")
         h.inp("x", t, (2, 2))
@@ -256,6 +265,20 @@ def hosts_dropout():
             h.n("Add", ["y", "mf"], "z")
         else:
             h.n("Dropout", ins, ["y"])
+            h.n("Neg", ["y"], "z")
+        h.out("z")
+        out.append(h.build())
+    # attribute form (opset 7..11: `ratio` is an attribute; dropout_zero_rule is written against this form)
+    for opset, ratio, mask in itertools.product([10, 11], [None, 0.0, 0.5], [False, True]):
+        h = H(f"Dropout-{opset} attribute ratio={ratio} mask_used={mask}", opset=opset)
+        h.inp("x", F, (2, 3))
+        kw = {} if ratio is None else {"ratio": ratio}
+        if mask:
+            h.n("Dropout", ["x"], ["y", "m"], **kw)
+            h.n("Cast", ["m"], "mf", to=F)
+            h.n("Add", ["y", "mf"], "z")
+        else:
+            h.n("Dropout", ["x"], ["y"], **kw)
             h.n("Neg", ["y"], "z")
         h.out("z")
         out.append(h.build())
@@ -603,6 +626,25 @@ def hosts_matmul_gemm():
         h.n("Reshape", ["mm", "s3"], "z")
         h.out("z")
         out.append(h.build())
+    # gemm_to_matmul_add: Reshape(Gemm(Reshape(a, [M, K]), b, c, alpha=1, beta=1), [batch..., N]); the bias may have any shape that
+    # is unidirectionally broadcastable to [M, N]
+    for xs in [(2, 3, 4), (1, 3, 4), (2, 1, 4)]:
+        M = xs[0] * xs[1]
+        for cshape, form in itertools.product([(2,), (1, 2), (M, 2), (M, 1), ()], ["init", "input"]):
+            for alpha, beta in [(1.0, 1.0), (1.0, 0.5)]:
+                if (alpha, beta) != (1.0, 1.0) and (cshape != (2,) or form != "init"):
+                    continue
+                h = H(f"Reshape(Gemm(Reshape(a={list(xs)}), b, c{list(cshape)} form={form}, alpha={alpha}, beta={beta}))")
+                h.inp("a", F, xs)
+                h.c("b", w((4, 2)))
+                h.c("c", w(cshape), form)
+                h.c("s1", np.array([M, 4], dtype=np.int64))
+                h.c("s2", np.array([xs[0], xs[1], 2], dtype=np.int64))
+                h.n("Reshape", ["a", "s1"], "r1")
+                h.n("Gemm", ["r1", "b", "c"], "g", alpha=alpha, beta=beta)
+                h.n("Reshape", ["g", "s2"], "y")
+                h.out("y")
+                out.append(h.build())
     return out
 
 
@@ -663,6 +705,24 @@ def hosts_conv():
             h.n("Add", ["m", "o"], "y")
         h.out("y")
         out.append(h.build())
+    # affine_conv_fusion_rule proper: 2-D Conv with an explicit pads=[0,0,0,0] attribute (the rule's pattern requires it);
+    # kernel sizes, strides, groups, scale/offset shapes and values, swapped Mul/Add operands
+    for (ks, strides, group), sshape, (sv, ov), swap in itertools.product(
+            [((1, 1), [1, 1], 1), ((2, 2), [1, 1], 1), ((2, 1), [2, 1], 1), ((1, 1), [1, 1], 2)], [(), (1,), (1, 1, 1, 1)],
+            [(2.0, 0.5), (-1.0, 0.0), (0.0, 3.0)], [False, True]):
+        if swap and sshape != ():
+            continue
+        h = H(f"affine then Conv2d pads=0 kernel={list(ks)} strides={strides} group={group} scale={sv} offset={ov} shape={list(sshape)} swapped={swap}")
+        h.inp("x", F, (1, 2, 3, 3))
+        h.c("w", w((2, 2 // group) + ks))
+        h.c("b", w((2,)))
+        h.c("s", np.full(sshape, sv, dtype=f32))
+        h.c("o", np.full(sshape, ov, dtype=f32))
+        h.n("Mul", ["s", "x"] if swap else ["x", "s"], "m")
+        h.n("Add", ["o", "m"] if swap else ["m", "o"], "a")
+        h.n("Conv", ["a", "w", "b"], "y", pads=[0, 0, 0, 0], strides=strides, group=group)
+        h.out("y")
+        out.append(h.build())
     # pad into conv
     for pads, mode, cval, conv_pads, auto in itertools.product(
             [[0, 0, 1, 0, 0, 2], [0, 0, 0, 0, 0, 0], [0, 1, 1, 0, 0, 1], [0, 0, -1, 0, 0, 0]], ["constant", "reflect"], [None, 0.0, 1.0],
@@ -694,6 +754,55 @@ def hosts_conv():
         h.inp("x", F, (1, 2, 5))
         h.c("w", w((3, 2, 2)))
         h.n("Conv", ["x", "w"], "y", auto_pad=auto, strides=strides, dilations=dil)
+        h.out("y")
+        out.append(h.build())
+    return out
+
+
+def hosts_conv_integer():
+    """ConvInteger behind a Pad (constant 0 / equal to the zero point / other), with and without zero points (scalar, per-channel),
+    uint8 and int8 data; auto_pad forms for the normalisation rule"""
+    out = []
+    rng = np.random.default_rng(5)
+    U8, I8 = TP.UINT8, TP.INT8
+    for xdt, zp, padv, wzp_kind, conv_pads in itertools.product([U8, I8], [None, 0, 5], [None, 0, 5, 9], ["none", "scalar", "per_channel"], [None, [1, 0]]):
+        npdt = np.uint8 if xdt == U8 else np.int8
+        if wzp_kind != "none" and zp is None:
+            continue  # w_zero_point is input 3: x_zero_point must be given
+        if wzp_kind == "per_channel" and (padv not in (None, 5) or conv_pads is not None):
+            continue
+        h = H(f"ConvInteger(Pad(x {'u8' if xdt == U8 else 'i8'}, value={padv}), x_zero_point={zp}, w_zero_point={wzp_kind}, pads={conv_pads})")
+        h.inp("x", xdt, (1, 2, 4))
+        h.c("w", rng.integers(0 if xdt == U8 else -3, 4, size=(3, 2, 2)).astype(npdt))
+        h.c("p", np.array([0, 0, 1, 0, 0, 2], dtype=np.int64))
+        pins = ["x", "p"]
+        if padv is not None:
+            h.c("pv", np.array(padv, dtype=npdt))
+            pins.append("pv")
+        h.n("Pad", pins, "px")
+        cins = ["px", "w"]
+        if zp is not None:
+            h.c("xz", np.array(zp, dtype=npdt))
+            cins.append("xz")
+        if wzp_kind == "scalar":
+            h.c("wz", np.array(1, dtype=npdt))
+            cins.append("wz")
+        elif wzp_kind == "per_channel":
+            h.c("wz", np.array([0, 1, 2], dtype=npdt))
+            cins.append("wz")
+        kw = {} if conv_pads is None else {"pads": conv_pads}
+        h.n("ConvInteger", cins, "y", **kw)
+        h.out("y")
+        out.append(h.build())
+    for auto, strides, zp in itertools.product(["SAME_UPPER", "SAME_LOWER", "VALID"], [[1], [2]], [None, 3]):
+        h = H(f"ConvInteger auto_pad={auto} strides={strides} x_zero_point={zp}")
+        h.inp("x", U8, (1, 2, 5))
+        h.c("w", rng.integers(0, 4, size=(3, 2, 2)).astype(np.uint8))
+        cins = ["x", "w"]
+        if zp is not None:
+            h.c("xz", np.array(zp, dtype=np.uint8))
+            cins.append("xz")
+        h.n("ConvInteger", cins, "y", auto_pad=auto, strides=strides)
         h.out("y")
         out.append(h.build())
     return out
@@ -847,7 +956,7 @@ FAMILIES = {
     "dropout_runtime": hosts_dropout_runtime,
     "expand": hosts_expand, "reshape_family": hosts_reshape_family, "clip_relu_minmax": hosts_clip_relu_minmax,
     "hardswish": hosts_hardswish, "matmul_gemm": hosts_matmul_gemm, "conv": hosts_conv, "scatter": hosts_scatter,
-    "control_flow": hosts_control_flow,
+    "control_flow": hosts_control_flow, "conv_integer": hosts_conv_integer,
 }
 
 
